@@ -29,7 +29,7 @@ type obj struct {
 }
 
 var (
-	objs  [128]obj
+	objs  [256]obj
 	nobjs int
 )
 
@@ -40,12 +40,28 @@ func findObj(p unsafe.Pointer, kind int) int {
 			return i
 		}
 	}
-	if nobjs >= len(objs) {
-		panic("zzsimrt: too many sync objects")
+	if nobjs < len(objs) {
+		objs[nobjs] = obj{ptr: p, kind: kind, owner: -1}
+		nobjs++
+		return nobjs - 1
 	}
-	objs[nobjs] = obj{ptr: p, kind: kind, owner: -1}
-	nobjs++
-	return nobjs - 1
+	// table full: recycle an entry nobody holds or waits for (locks living in per-call values come and go)
+	for i := 0; i < nobjs; i++ {
+		if objs[i].held || objs[i].readers > 0 {
+			continue
+		}
+		waited := false
+		for k := 0; k < hiSlot; k++ {
+			if tasks[k].alive && tasks[k].state == tsBlocked && tasks[k].blockedOn == i {
+				waited = true
+			}
+		}
+		if !waited {
+			objs[i] = obj{ptr: p, kind: kind, owner: -1}
+			return i
+		}
+	}
+	panic("zzsimrt: too many sync objects held at the same time")
 }
 
 // block marks t blocked on object o and hands control to somebody else.
@@ -77,8 +93,10 @@ func OnceDo(o *sync.Once, f func()) {
 		o.Do(f)
 		return
 	}
-	oi := findObj(unsafe.Pointer(o), objOnce)
 	reschedule(t, EvSync)
+	// (look the object up only after the scheduling point, and again after every wait: entries of the
+	// object table are recycled while nobody holds or awaits them)
+	oi := findObj(unsafe.Pointer(o), objOnce)
 	me := idx(t)
 	if objs[oi].held && objs[oi].owner == me {
 		// o.Do called from inside its own initialiser: the real primitive would block forever
@@ -89,6 +107,7 @@ func OnceDo(o *sync.Once, f func()) {
 	for objs[oi].held && objs[oi].owner != me {
 		onceCont++
 		block(t, oi)
+		oi = findObj(unsafe.Pointer(o), objOnce)
 	}
 	t.onceF = f
 	t.onceObj = oi
@@ -136,11 +155,12 @@ func MutexLock(m *sync.Mutex) {
 		m.Lock()
 		return
 	}
-	oi := findObj(unsafe.Pointer(m), objMutex)
 	reschedule(t, EvSync)
+	oi := findObj(unsafe.Pointer(m), objMutex)
 	for objs[oi].held {
 		lockCont++
 		block(t, oi)
+		oi = findObj(unsafe.Pointer(m), objMutex)
 	}
 	objs[oi].held = true
 	objs[oi].owner = idx(t)
@@ -155,8 +175,8 @@ func MutexTryLock(m *sync.Mutex) bool {
 	if t == nil {
 		return m.TryLock()
 	}
-	oi := findObj(unsafe.Pointer(m), objMutex)
 	reschedule(t, EvSync)
+	oi := findObj(unsafe.Pointer(m), objMutex)
 	if objs[oi].held {
 		return false
 	}
@@ -193,11 +213,12 @@ func RWLock(m *sync.RWMutex) {
 		m.Lock()
 		return
 	}
-	oi := findObj(unsafe.Pointer(m), objRW)
 	reschedule(t, EvSync)
+	oi := findObj(unsafe.Pointer(m), objRW)
 	for objs[oi].held || objs[oi].readers > 0 {
 		lockCont++
 		block(t, oi)
+		oi = findObj(unsafe.Pointer(m), objRW)
 	}
 	objs[oi].held = true
 	objs[oi].owner = idx(t)
@@ -229,11 +250,12 @@ func RWRLock(m *sync.RWMutex) {
 		m.RLock()
 		return
 	}
-	oi := findObj(unsafe.Pointer(m), objRW)
 	reschedule(t, EvSync)
+	oi := findObj(unsafe.Pointer(m), objRW)
 	for objs[oi].held {
 		lockCont++
 		block(t, oi)
+		oi = findObj(unsafe.Pointer(m), objRW)
 	}
 	objs[oi].readers++
 	if objs[oi].owner < 0 {
